@@ -54,8 +54,18 @@ def attach_ufl_id(cls):
 
         return init_ufl_id
 
+    def _setstate(self, state):
+        """Restore the state of an unpickled object and reserve its ufl_id."""
+        # pickle does not call __init__, so the id of an object that comes
+        # from another process would otherwise be handed out again here
+        for attributes in state if isinstance(state, tuple) else (state,):
+            for name, value in (attributes or {}).items():
+                setattr(self, name, value)
+        cls._ufl_global_id = max(self._ufl_id + 1, cls._ufl_global_id)
+
     # Modify class:
     cls._ufl_global_id = 0
     cls.ufl_id = _get_ufl_id
     cls._init_ufl_id = _init_ufl_id(cls)
+    cls.__setstate__ = _setstate
     return cls
